@@ -376,6 +376,46 @@ func runC18(c *Ctx) {
 			L.Check(n >= 4, "R-C18-TINYLFU", "tinyLFU.Increment", "door.AddIfNotHas; freq.Increment iff already set; incrs++; reset iff incrs >= resetAt", "fewer than four paths", fn.Pos())
 		}
 	})
+	c.Group("R-C18-TINYLFU", "tinyLFU.Push", func() {
+		// a batch of accesses is recorded key by key through Increment, so that the aging check
+		// (incrs >= resetAt) is made after every single access: a reset that is due in the middle
+		// of a batch halves only the counts recorded before it
+		fn := P.Fn("ristretto", "tinyLFU", "Push")
+		L.Analysed(fname(fn))
+		tb := newTB(fn)
+		var problems []string
+		loops := rangeLoopsOf(fn)
+		calls := callsTo(fn, "tinyLFU.Increment")
+		if len(loops) != 1 || len(calls) != 1 {
+			problems = append(problems, fmt.Sprintf("expected one range loop with one Increment call, found %d loop(s) and %d call(s)", len(loops), len(calls)))
+		} else {
+			lp, call := loops[0], calls[0]
+			if tb.T(lp.Slice).String() != "p[1]" || !lp.Whole() {
+				problems = append(problems, "the loop does not visit every key of the batch")
+			}
+			if !lp.Blocks()[call.Block()] {
+				problems = append(problems, "Increment is not called once per key")
+			}
+			a := call.Common().Args
+			if tb.T(a[0]).String() != "p[0]" || tb.T(a[1]).String() != "idx(p[1],"+tb.T(lp.Index).String()+")" {
+				problems = append(problems, "Increment is called with "+tb.T(a[1]).String()+", not the ranged key")
+			}
+		}
+		// nothing else touches the aging state here
+		eachInstr(fn, func(in ssa.Instruction) {
+			switch x := in.(type) {
+			case *ssa.Store:
+				if fa, ok := x.Addr.(*ssa.FieldAddr); ok && recvName(fa.X.Type()) == "tinyLFU" {
+					problems = append(problems, "Push writes tinyLFU."+fieldName(fa.X.Type(), fa.Field)+" itself (the per-access bookkeeping belongs to Increment)")
+				}
+			case ssa.CallInstruction:
+				if n := calleeName(x.Common()); n != "tinyLFU.Increment" && n != "len" && isModuleCall(x) {
+					problems = append(problems, "Push calls "+n)
+				}
+			}
+		})
+		L.Check(len(problems) == 0, "R-C18-TINYLFU", "tinyLFU.Push", "every key of the batch goes through Increment (aging check after each access)", strings.Join(problems, "; "), fn.Pos())
+	})
 	c.Group("R-C18-TINYLFU", "tinyLFU.reset", func() {
 		fn := P.Fn("ristretto", "tinyLFU", "reset")
 		tb := newTB(fn)
@@ -406,6 +446,8 @@ func runC18(c *Ctx) {
 		}
 	})
 	bloomClearRule(c, "R-C18-TINYLFU")
+	// the estimate the property speaks of is tinyLFU.Estimate: sketch estimate plus the doorkeeper's first-access mark
+	importRules(c, runC09, map[string]string{"R-C09-ESTIMATE": "R-C18-TINYLFU"})
 	c.Group("R-C18-TINYLFU", "newTinyLFU", func() {
 		fn := P.Fn("ristretto", "", "newTinyLFU")
 		tb := newTB(fn)
